@@ -82,7 +82,12 @@ class Thread(threading.Thread):
 
             tb = ''.join(traceback.format_exception(type(e), e, e.__traceback__))
             tb = f'[{threading.current_thread().name}] ' + tb
-            e.__cause__ = type(e)(tb)
+            try:
+                e.__cause__ = type(e)(tb)
+            except Exception:
+                # Not every exception class can be created from a single string
+                # (e.g. ``UnicodeDecodeError``); the future must be resolved regardless.
+                e.__cause__ = RuntimeError(tb)
             e.__traceback__ = None
 
             self._future_.set_exception(e)
